@@ -10,7 +10,6 @@ import (
 	"time"
 
 	"github.com/scrapli/scrapligo/driver/opoptions"
-	"github.com/scrapli/scrapligo/transport"
 
 	"verif/internal/devsim"
 	"verif/internal/mon"
@@ -78,7 +77,7 @@ func RunLoss(d Dialogue) mon.Result {
 	}
 	conn := devsim.NewConn(dev, cfg)
 	defer conn.Abandon()
-	ac := &devsim.AuthConn{Conn: conn, SSH: &transport.SSHArgs{PrivateKeyPassPhrase: d.Passphrase}}
+	ac := &devsim.AuthConn{Conn: conn, SSH: d.SSHArgs()}
 	s, err := NewSession(&d, ac, nil)
 	if err != nil {
 		return mon.Result{Verdict: mon.Violated, Key: "c10/constructor-failed", Detail: err.Error()}
